@@ -82,6 +82,77 @@ func caseTokenTable(c *Ctx, rel string, decl *ast.FuncDecl, wantString bool) map
 	if decl == nil {
 		return out
 	}
+	// table form: the function looks the text up in a package-level map[string|byte|rune]TokenType literal
+	ast.Inspect(decl, func(n ast.Node) bool {
+		ix, ok := n.(*ast.IndexExpr)
+		if !ok {
+			return true
+		}
+		id, ok := ix.X.(*ast.Ident)
+		if !ok {
+			return true
+		}
+		v, ok := p.TypesInfo.Uses[id].(*types.Var)
+		if !ok || v.Parent() != p.Types.Scope() {
+			return true
+		}
+		mt, ok := v.Type().Underlying().(*types.Map)
+		if !ok || !typeIs(mt.Elem(), parserPath, "TokenType") {
+			return true
+		}
+		for _, f := range p.Syntax {
+			for _, d := range f.Decls {
+				gd, ok := d.(*ast.GenDecl)
+				if !ok {
+					continue
+				}
+				for _, sp := range gd.Specs {
+					vs, ok := sp.(*ast.ValueSpec)
+					if !ok {
+						continue
+					}
+					for i, nm := range vs.Names {
+						if p.TypesInfo.Defs[nm] != types.Object(v) || i >= len(vs.Values) {
+							continue
+						}
+						cl, ok := vs.Values[i].(*ast.CompositeLit)
+						if !ok {
+							continue
+						}
+						for _, el := range cl.Elts {
+							kv, ok := el.(*ast.KeyValueExpr)
+							if !ok {
+								continue
+							}
+							tv, ok := p.TypesInfo.Types[kv.Key]
+							if !ok || tv.Value == nil {
+								continue
+							}
+							key := ""
+							if wantString && tv.Value.Kind() == constant.String {
+								key = constant.StringVal(tv.Value)
+							} else if !wantString && tv.Value.Kind() == constant.Int {
+								if x, ok := constant.Int64Val(tv.Value); ok && x > 0 && x < 128 {
+									key = string(rune(x))
+								}
+							}
+							vid, ok := kv.Value.(*ast.Ident)
+							if key == "" || !ok {
+								continue
+							}
+							if cst, ok := p.TypesInfo.Uses[vid].(*types.Const); ok && typeIs(cst.Type(), parserPath, "TokenType") {
+								if out[key] == nil {
+									out[key] = map[string]bool{}
+								}
+								out[key][cst.Name()] = true
+							}
+						}
+					}
+				}
+			}
+		}
+		return true
+	})
 	ast.Inspect(decl, func(n ast.Node) bool {
 		sw, ok := n.(*ast.SwitchStmt)
 		if !ok || sw.Tag == nil {
